@@ -356,6 +356,10 @@ class ApiModel:
     def op_quit(self):
         return ("return", None)
 
+    def op_shutdown(self, graceful=False):
+        # servers in the simulation are started without --enable-shutdown
+        return ("raise", "MemcacheUnknownCommandError")
+
     def visible(self):
         self._due()
         now = self.now()
